@@ -44,8 +44,10 @@ def _tol(cfg):
     return THRESHOLDS[cfg["dtype"]]
 
 
-def _query(bm, cfg, a, b, fl):
+def _query(bm, cfg, a, b, fl, rng=None):
     qa, qb = bmgen.to_frame(cfg, a, b)
+    if rng is not None:  # same times, passed as another documented type (0-d tensor / int)
+        qa, qb = bmgen.as_arg(qa, rng), bmgen.as_arg(qb, rng)
     out = bm(qa, qb, **fl)
     if torch.is_tensor(out):
         return out, None, None
@@ -85,15 +87,23 @@ def run_case(case):
 
         def triple_checks(ntr):
             for _ in range(ntr):
-                s, u, t = sorted(rd(rng.uniform(t0, t1)) for _ in range(3))
+                s, u, t = sorted(bmgen.pick_time(cfg, rng, 0.25) for _ in range(3))
                 if rng.random() < 0.15 and qs:
                     # reuse end points the history created: hits existing node boundaries
                     pts = sorted({p for q in qs[:50] for p in q})
                     s, u, t = sorted(rng.choice(pts) for _ in range(3))
-                W, U, A = _query(bm, cfg, s, t, fl)
+                point_first = None
+                if cfg["wrapper"] in ("path", "tree", "interval") and rng.random() < 0.3:
+                    # point evaluations BEFORE the interval queries (a point query that disturbs stored values
+                    # shows up in the relations checked below)
+                    import warnings
+                    with warnings.catch_warnings():
+                        warnings.simplefilter("ignore")
+                        point_first = (bm(s).clone(), bm(t).clone())
+                W, U, A = _query(bm, cfg, s, t, fl, rng)
                 pieces = probe.last_pieces if s < t else None
-                W1, U1, A1 = _query(bm, cfg, s, u, fl)
-                W2, U2, A2 = _query(bm, cfg, u, t, fl)
+                W1, U1, A1 = _query(bm, cfg, s, u, fl, rng)
+                W2, U2, A2 = _query(bm, cfg, u, t, fl, rng)
                 if cfg["wrapper"] == "reverse":
                     # in the wrapper's frame the order of the two halves is mirrored
                     W1, W2, U1, U2, A1, A2 = W2, W1, U2, U1, A2, A1
@@ -149,6 +159,13 @@ def run_case(case):
                         ps, pt = bm(s), bm(t)
                     bump("point_form")
                     check("point_form", pt - ps, W, ctx)
+                if point_first is not None:
+                    bump("point_form")
+                    check("point_form_first", point_first[1] - point_first[0], W, ctx)
+                    # a point value is w0 + W(t0, t)
+                    if cfg["wrapper"] in ("path", "tree"):
+                        Wt0, _, _ = _query(bm, cfg, t0, t, fl)
+                        check("point_value_is_w0_plus_increment", point_first[1], meta["w0"] + Wt0, ctx)
 
         # history with interleaved oracle checks
         cut = len(qs) // 2
